@@ -10,6 +10,7 @@ import (
 	"sync"
 
 	"github.com/gethiox/HIDI/internal/pkg/logger"
+	"github.com/gethiox/HIDI/internal/pkg/midi/device/config"
 )
 
 func init() { extraCommands["isolation"] = cmdIsolation }
@@ -24,15 +25,9 @@ type isoLine struct {
 	Msg    string    `json:"msg"`
 }
 
-func runScript(b *devBatch, walk []devInput) ([][][]int, string) {
-	var ac absCfg
-	if err := json.Unmarshal(b.Cfg, &ac); err != nil {
-		return nil, err.Error()
-	}
-	conf, err := literalConfig(&ac, b.Sub)
-	if err != nil {
-		return nil, err.Error()
-	}
+// runScript runs one device on the batch's configuration.  conf is ONE object shared by all devices of the batch, as in
+// the application (FindConfig hands the same DeviceConfig - the same maps - to every device that uses that file).
+func runScript(b *devBatch, ac *absCfg, conf config.Config, walk []devInput) ([][][]int, string) {
 	r, err := newDevRun(conf, ac.Axinfo, b.Sub)
 	if err != nil {
 		return nil, err.Error()
@@ -88,22 +83,35 @@ func cmdIsolation(args []string) error {
 		solo := make([][][][]int, k)
 		conc := make([][][][]int, k)
 		msgs := make([]string, k)
-		for i, wk := range b.Walks {
-			solo[i], msgs[i] = runScript(b, wk)
+		var ac absCfg
+		if err := json.Unmarshal(b.Cfg, &ac); err != nil {
+			return err
 		}
+		conf, err := literalConfig(&ac, b.Sub)
+		if err != nil {
+			return err
+		}
+		// the devices side by side first (on a configuration object nobody has used yet), then each alone
 		var wg sync.WaitGroup
 		for i, wk := range b.Walks {
 			wg.Add(1)
 			go func(i int, wk []devInput) {
 				defer wg.Done()
 				var m string
-				conc[i], m = runScript(b, wk)
+				conc[i], m = runScript(b, &ac, conf, wk)
 				if m != "" {
 					msgs[i] = m
 				}
 			}(i, wk)
 		}
 		wg.Wait()
+		for i, wk := range b.Walks {
+			var m string
+			solo[i], m = runScript(b, &ac, conf, wk)
+			if msgs[i] == "" {
+				msgs[i] = m
+			}
+		}
 		for i := range b.Walks {
 			enc.Encode(isoLine{Ev: "isolation", Batch: bi + 1, Script: i + 1, K: k, Solo: solo[i], Conc: conc[i], Msg: msgs[i]})
 		}
